@@ -103,8 +103,15 @@ func (vc *VC) site(key string) int {
 }
 
 func (vc *VC) oblige(st *State, kind, name, pos, desc string, goal *Term, props []string) {
-	if isTrue(goal) {
-		// still count as discharged trivially
+	if vc.fc != nil {
+		if sk := vc.fc.Flags["skip"]; sk != "" {
+			for _, k := range strings.FieldsFunc(sk, func(r rune) bool { return r == ',' || r == ' ' }) {
+				if k == kind {
+					vc.note("obligations of kind '" + kind + "' are not generated for " + vc.root.String() + " (contract flag skip)")
+					return
+				}
+			}
+		}
 	}
 	id := name
 	n := vc.site(id)
